@@ -129,6 +129,26 @@ def check(run: Run) -> None:
                     bad = {"value": v, "observed": f"{type(e).__name__}: {e}", "expected": "a value"}
                 if bad:
                     break
+            if not bad:
+                # the other order, on a fresh cstruct object: the array readers meet a value BEFORE any scalar parse produced it
+                member_vals = {int(m.value) for m in K.__members__.values()}
+                odd = [v for v in vals if v not in member_vals][:10] + [v for v in vals if v in member_vals][:3]
+                try:
+                    cs3 = c.load()
+                    K3 = cs3.resolve("K")
+                    for v in odd:
+                        n_oracle += 1
+                        raw = int(v).to_bytes(size, order, signed=signed)
+                        arr = K3[2](raw * 2)
+                        nul = K3[None](raw + bytes(size)) if v != 0 else []
+                        a = K3(raw)
+                        for e, how in [(arr[0], "K[2] parsed first"), (arr[1], "K[2] parsed first")] + [(x, "K[] parsed first") for x in nul[:1]]:
+                            if not (e == a and hash(e) == hash(a) and e.name == a.name and int(e.value) == v and {e: 1}.get(a) == 1):
+                                bad = {"value": v, "observed": f"{how}: {e!r} (hash equal: {hash(e) == hash(a)}, name {e.name!r})", "expected": f"{a!r} as a later scalar parse gives"}
+                        if bad:
+                            break
+                except Exception as e:  # noqa: BLE001
+                    bad = {"value": "array before scalar", "observed": f"{type(e).__name__}: {e}", "expected": "values"}
             if bad:
                 failures += 1
                 sig = "C12/value"
